@@ -21,7 +21,7 @@ import (
 func init() { register("C13", "exploration", checkC13) }
 
 var bufSchedules = []string{"one", "zero-one", "rand64", "rand100k", "edges", "big", "zero-runs"}
-var fragKinds = []string{"whole", "one", "short", "eofwith"}
+var fragKinds = []string{"whole", "one", "short", "eofwith", "std:file", "std:bufio16", "std:bufio4096", "std:bufio-exact", "std:pipe", "std:bytes.Buffer", "std:strings.Reader"}
 
 func c13Streams(c *ev.Ctx) []tstream {
 	streams := truncStreams(c)
@@ -138,7 +138,7 @@ func c13Streams(c *ev.Ctx) []tstream {
 }
 
 func checkC13(c *ev.Ctx) {
-	c.SetRule("triples (valid stream, schedule of Read buffer lengths, source fragmentation): streams of all three formats (multi-block, multi-chunk, multi-stream, small and ~200 KB); buffer schedules: constant 1, alternating 0/1, data reads separated by runs of 5..5000 zero-length reads, random 0..64, random 0..100000, lengths at block/chunk/dictionary edges +-1, one large; fragmentations: whole, 1 byte, random short reads, data together with io.EOF; with and without io.ByteReader. The full (len(p), n, err) sequence is monitored. distinct non-trivial = distinct (stream, schedule, fragmentation, ByteReader?) triples")
+	c.SetRule("triples (valid stream, schedule of Read buffer lengths, source fragmentation): streams of all three formats (multi-block, multi-chunk, multi-stream, small and ~200 KB); buffer schedules: constant 1, alternating 0/1, data reads separated by runs of 5..5000 zero-length reads, random 0..64, random 0..100000, lengths at block/chunk/dictionary edges +-1, one large; fragmentations: whole, 1 byte, random short reads, data together with io.EOF (with and without io.ByteReader), and the concrete source types of production (a real file, buffered readers of three sizes over a source delivering in pieces, io.Pipe, bytes.Buffer, strings.Reader); every read buffer is a window of a larger array with canaries behind it. The full (len(p), n, err) sequence is monitored. distinct non-trivial = distinct (stream, schedule, fragmentation, ByteReader?) triples")
 	c.Assume("sources never return (0, nil) for a non-empty buffer (the property does not cover such sources)")
 	streams := c13Streams(c)
 	n := 12000
@@ -156,9 +156,20 @@ func checkC13(c *ev.Ctx) {
 		s := streams[i%len(streams)]
 		sched := bufSchedules[r.Intn(len(bufSchedules))]
 		frag := fragKinds[r.Intn(len(fragKinds))]
+		if f := os.Getenv("C13_ONLY"); f != "" {
+			frag = f
+		}
 		byteSrc := r.Bool()
 		if len(s.Content) > 50000 && (sched == "one" || sched == "zero-one") && (i%7 != 0 || len(s.Content) > 400000) {
 			sched = "rand64"
+		}
+		if frag == "std:pipe" && len(s.B) > 4000 {
+			// the readers take single bytes from an unbuffered source: over a synchronous pipe every
+			// byte is a hand-over between two goroutines (here: two locked OS threads)
+			frag = "std:bufio4096"
+		}
+		if strings.HasPrefix(frag, "std:") && len(s.Content) > 20000 && (sched == "one" || sched == "zero-one" || sched == "zero-runs") {
+			sched = "rand100k"
 		}
 		src := mon.NewSource(s.B)
 		src.Frag = frag
@@ -167,6 +178,13 @@ func checkC13(c *ev.Ctx) {
 		var rd io.Reader = src
 		if byteSrc {
 			rd = mon.ByteSource{Source: src}
+		}
+		if strings.HasPrefix(frag, "std:") {
+			// one of the concrete source types of production instead of the harness's own
+			var release func()
+			rd, release = mon.OpenSource(frag[4:], s.B, uint64(i)+c.Seed)
+			defer release()
+			byteSrc = false
 		}
 		f := s.Format
 		if f == "xz-multi" {
@@ -230,8 +248,12 @@ func checkC13(c *ev.Ctx) {
 				if eofSeen && l == 0 {
 					l = 1 + r.Intn(50)
 				}
-				p := make([]byte, l)
+				p := mon.GuardedBuf(l)
 				nn, err := lr.Read(p)
+				if !mon.GuardIntact(p) {
+					bad = fmt.Sprintf("Read with a buffer of %d bytes (a window of a larger array) wrote behind the window", l)
+					return
+				}
 				if len(trace) < 12 || eofSeen {
 					trace = append(trace, fmt.Sprintf("Read(%d)=(%d,%v)", l, nn, err))
 				}
